@@ -304,6 +304,14 @@ class Gen:
         return "(with %s)" % " ".join(cs)
 
     # ---- statements ----
+    def where_calls(self, n, d):
+        """n condition-adding calls: and_where / cond_where, or - never mixed with them, the code panics on a mix -
+        the doc-hidden and_or_where(LogicalChainOper)"""
+        r = self.r
+        if n and r.random() < 0.1:
+            return ["(andorwhere %s %s)" % (r.choice(["and", "and", "or"]), self.expr(d)) for _ in range(n)]
+        return [r.choice(["(andwhere %s)" % self.expr(d), "(condwhere %s)" % self.cond(d)]) for _ in range(n)]
+
     def select(self, depth=2):
         r = self.r
         d = max(0, depth)
@@ -337,8 +345,7 @@ class Gen:
         for _ in range(r.choice([0, 0, 0, 1, 2])):
             jt = r.choice(["join", "cross", "inner", "left", "right"] + (["full"] if (self.b != "my" or self.allow_panic) else []))
             cs.append("(join %s %s %s)" % (jt, self.tref(d), self.cond_or_expr(d)))
-        for _ in range(r.choice([0, 0, 1, 1, 2, 3])):
-            cs.append(r.choice(["(andwhere %s)" % self.expr(d), "(condwhere %s)" % self.cond(d)]))
+        cs += self.where_calls(r.choice([0, 0, 1, 1, 2, 3]), d)
         for _ in range(r.choice([0, 0, 0, 1, 2])):
             cs.append("(groupby %s)" % self.expr(d))
         for _ in range(r.choice([0, 0, 0, 1, 2])):
@@ -454,8 +461,7 @@ class Gen:
             cs.append("(from %s)" % self.tref(0))
         for _ in range(r.randrange(1, 4)):
             cs.append("(value %s %s)" % (self.ident(), self.expr(d)))
-        for _ in range(r.choice([0, 1, 1, 2])):
-            cs.append(r.choice(["(andwhere %s)" % self.expr(d), "(condwhere %s)" % self.cond(d)]))
+        cs += self.where_calls(r.choice([0, 1, 1, 2]), d)
         for _ in range(r.choice([0, 0, 1])):
             cs.append("(orderby %s)" % self.order(d))
         if r.random() < 0.3:
@@ -470,8 +476,7 @@ class Gen:
         r = self.r
         d = max(0, depth)
         cs = ["(from %s)" % self.tref(0)]
-        for _ in range(r.choice([0, 1, 1, 2])):
-            cs.append(r.choice(["(andwhere %s)" % self.expr(d), "(condwhere %s)" % self.cond(d)]))
+        cs += self.where_calls(r.choice([0, 1, 1, 2]), d)
         for _ in range(r.choice([0, 0, 1])):
             cs.append("(orderby %s)" % self.order(d))
         if r.random() < 0.3:
